@@ -136,6 +136,9 @@ func RunCheck(o CheckOpts) int {
 		fmt.Printf("ERROR %v\n", err)
 		return 2
 	}
+	for k, why := range g.BrokenPures {
+		fmt.Printf("WARNING spec function %s cannot be evaluated on this tree (%s): it is left undefined, obligations that need it will fail\n", k, why)
+	}
 	g.ComputeWriteSets()
 	known := loadKnown(filepath.Join(o.Verif, "KNOWN_FINDINGS.json"))
 	basePath := filepath.Join(o.Verif, "contracts", "baseline.json")
